@@ -63,6 +63,12 @@ pub enum AOp {
     SubClone(u8),
     SubCloneReset(u8),
     SubReset(u8),
+    /// `sub.next_ref_now().await`: guard held on completion, value marked observed
+    SubNextRefNow(u8),
+    SubscribeReset,
+    Downgrade,
+    /// upgrade the oldest weak reference: must succeed while an owner exists; the new owner is kept
+    Upgrade,
 }
 
 #[derive(Clone, Debug, Serialize, Deserialize, PartialEq, Eq, Hash)]
@@ -87,7 +93,9 @@ enum Out {
     Sub(Sub),
     SubVal(usize, MOVal),
     SubNext(usize, Option<MOVal>),
-    SubGuard(usize, RG, bool),
+    /// (subscriber, guard, marks the value observed, came from next_ref (never after the end))
+    SubGuard(usize, RG, bool, bool),
+    SubR(Sub),
     SubNextRefNone(usize),
 }
 
@@ -120,6 +128,7 @@ struct World {
     prop: Prop,
     rep: CaseReport,
     owners: Vec<*mut Obs>,
+    weaks: Vec<eyeball::WeakObservable<OVal, AsyncLock>>,
     subs: Vec<SubSlot>,
     held: Vec<Option<Held>>,
     tasks: Vec<Task>,
@@ -187,7 +196,7 @@ fn show(o: &Out) -> String {
         Out::SubNext(_, x) => format!("{:?}", x),
         Out::WriteGuard(_) => "write guard".into(),
         Out::ReadGuard(_) => "read guard".into(),
-        Out::Sub(_) => "subscriber".into(),
+        Out::Sub(_) | Out::SubR(_) => "subscriber".into(),
         Out::SubGuard(..) => "subscriber read guard".into(),
         Out::SubNextRefNone(_) => "None".into(),
     }
@@ -281,12 +290,14 @@ impl World {
                 let v = self.value;
                 self.check_t(x == v, &[Prop::C01], || format!("{what} returned {:?}, model value {:?}", x, v))?;
             }
-            Out::SubGuard(s, g, marks_observed) => {
+            Out::SubGuard(s, g, marks_observed, from_next_ref) => {
                 let seen = (*g).m();
                 let v = self.value;
                 self.check_t(seen == v, &[Prop::C01], || format!("{what}: guard derefs to {:?}, model value {:?}", seen, v))?;
-                if marks_observed {
+                if from_next_ref {
                     self.check_t(!self.closed, &[Prop::C03], || format!("{what} yielded a guard although the observable is closed"))?;
+                }
+                if marks_observed {
                     self.subs[s].unseen = false;
                 }
                 // the subscriber stays borrowed by the guard
@@ -299,6 +310,10 @@ impl World {
             Out::Sub(s) => {
                 let p = Box::into_raw(Box::new(s));
                 self.subs.push(SubSlot { sub: p, unseen: false, stream_flag: None, polled_under_write: false, busy: false });
+            }
+            Out::SubR(s) => {
+                let p = Box::into_raw(Box::new(s));
+                self.subs.push(SubSlot { sub: p, unseen: true, stream_flag: None, polled_under_write: false, busy: false });
             }
             Out::SubVal(s, x) => {
                 let v = self.value;
@@ -453,6 +468,7 @@ impl World {
             drop(unsafe { Box::from_raw(p) });
         }
         self.closed = true;
+        self.check_weaks_dead()?;
         if sub_guards > 0 {
             self.rep.classes.push("owners_dropped_while_subscriber_guard_held");
         }
@@ -488,6 +504,17 @@ impl World {
             } else {
                 return self.fail_t(&[Prop::C02, Prop::C03], format!("subscriber {s}: every owner is gone but its pending poll was never woken"));
             }
+        }
+        Ok(())
+    }
+
+    fn check_weaks_dead(&mut self) -> R {
+        for i in 0..self.weaks.len() {
+            let up = self.weaks[i].upgrade();
+            let ok = up.is_none();
+            // (an erroneously revived owner is dropped again right here)
+            drop(up);
+            self.check_t(ok, &[Prop::C03], || "WeakObservable::upgrade succeeded after every owner was dropped".to_string())?;
         }
         Ok(())
     }
@@ -642,7 +669,7 @@ impl World {
                 }
                 let sub: &'static mut Sub = unsafe { &mut *self.subs[s].sub };
                 if matches!(op, AOp::SubAcquireRead(_)) {
-                    self.spawn(format!("read on subscriber {s}"), None, Some(s), Box::pin(async move { Out::SubGuard(s, sub.read().await, false) }));
+                    self.spawn(format!("read on subscriber {s}"), None, Some(s), Box::pin(async move { Out::SubGuard(s, sub.read().await, false, false) }));
                 } else if self.subs[s].unseen || self.closed {
                     self.spawn(
                         format!("next_ref on subscriber {s}"),
@@ -650,7 +677,7 @@ impl World {
                         Some(s),
                         Box::pin(async move {
                             match sub.next_ref().await {
-                                Some(g) => Out::SubGuard(s, g, true),
+                                Some(g) => Out::SubGuard(s, g, true, true),
                                 None => Out::SubNextRefNone(s),
                             }
                         }),
@@ -661,6 +688,45 @@ impl World {
                 let free: Vec<usize> = (0..self.subs.len()).filter(|i| !self.subs[*i].busy && self.subs[*i].stream_flag.is_none()).collect();
                 let Some(i) = pick(ix, free.len()) else { return Ok(()) };
                 self.poll_stream(free[i], true)?;
+            }
+            AOp::SubNextRefNow(ix) => {
+                let free: Vec<usize> = (0..self.subs.len()).filter(|i| !self.subs[*i].busy && self.subs[*i].stream_flag.is_none()).collect();
+                let Some(i) = pick(ix, free.len()) else { return Ok(()) };
+                let s = free[i];
+                if self.held.iter().flatten().count() + self.tasks.iter().filter(|t| t.fut.is_some()).count() >= 6 {
+                    return Ok(());
+                }
+                let sub: &'static mut Sub = unsafe { &mut *self.subs[s].sub };
+                self.spawn(format!("next_ref_now on subscriber {s}"), None, Some(s), Box::pin(async move { Out::SubGuard(s, sub.next_ref_now().await, true, false) }));
+            }
+            AOp::SubscribeReset => {
+                let Some(o) = self.owner() else { return Ok(()) };
+                if self.subs.len() >= 4 || self.tasks.iter().filter(|t| t.fut.is_some()).count() >= 6 {
+                    return Ok(());
+                }
+                // needs no lock: works at once, also under a write guard
+                let p = Box::into_raw(Box::new(o.subscribe_reset()));
+                self.subs.push(SubSlot { sub: p, unseen: true, stream_flag: None, polled_under_write: false, busy: false });
+            }
+            AOp::Downgrade => {
+                if let Some(o) = self.owner() {
+                    if self.weaks.len() < 2 {
+                        self.weaks.push(o.downgrade());
+                    }
+                }
+            }
+            AOp::Upgrade => {
+                if let Some(w) = self.weaks.first() {
+                    let up = w.upgrade();
+                    let n_own = self.owners.len();
+                    let got = up.is_some();
+                    self.check_t(got == (n_own > 0), &[Prop::C03], || format!("WeakObservable::upgrade returned {} with {n_own} owner(s) alive", if got { "Some" } else { "None" }))?;
+                    if let Some(o) = up {
+                        if self.owners.len() < 3 {
+                            self.owners.push(Box::into_raw(Box::new(o)));
+                        }
+                    }
+                }
             }
             AOp::SubClone(ix) | AOp::SubCloneReset(ix) | AOp::SubReset(ix) => {
                 // needs only &Sub / &mut Sub without a task or guard borrowing it
@@ -712,6 +778,7 @@ pub fn run(case: &AsyncCase, prop: Prop) -> R<CaseReport> {
         prop,
         rep: CaseReport::default(),
         owners: vec![Box::into_raw(Box::new(SharedObservable::new_async(OVal::new(case.init.0, case.init.1))))],
+        weaks: vec![],
         subs: vec![],
         held: vec![],
         tasks: vec![],
@@ -750,6 +817,7 @@ pub fn run(case: &AsyncCase, prop: Prop) -> R<CaseReport> {
             drop(unsafe { Box::from_raw(p) });
         }
         w.closed = true;
+        w.check_weaks_dead()?;
         w.run_ready()?;
         w.check_quiescent()?;
         for s in 0..w.subs.len() {
@@ -820,6 +888,10 @@ pub fn case() -> BoxedStrategy<AsyncCase> {
         2 => ix().prop_map(AOp::SubClone),
         1 => ix().prop_map(AOp::SubCloneReset),
         1 => ix().prop_map(AOp::SubReset),
+        2 => ix().prop_map(AOp::SubNextRefNow),
+        1 => Just(AOp::SubscribeReset),
+        1 => Just(AOp::Downgrade),
+        1 => Just(AOp::Upgrade),
     ];
     ((0u8..3, 0u8..3), proptest::collection::vec(op, 0..=30), prop_oneof![2 => Just(0u8), 1 => Just(1u8)])
         .prop_map(|(init, ops, finale)| AsyncCase { init, ops, finale })
